@@ -33,6 +33,7 @@ CONSTANTS
 INVARIANT InvCovValid
 INVARIANT InvUpdate
 INVARIANT InvRescale
+INVARIANT InvScaleCov
 INVARIANT InvReject
 INVARIANT InvNisNonNeg
 INVARIANT InvSPD
